@@ -1,0 +1,5 @@
+//go:build !verif
+
+package wir
+
+func VerifEvent(ev string, m *Module) {}
